@@ -372,6 +372,45 @@ def t(src, xs, bad): return N().f(src, xs, bad)
 ''', ['t([[], [-1], [-2, 5], [], [7, 8], [9]], [1, 3, 4], [3])', 't([[1], [2]], [0, 1], [])', 't([[1]], [5], [])'],
      expect_inlined=True)
 
+# a repeated test on an attribute is not decided across a call / yield that can change the attribute
+case('''
+class N(object):
+    def __init__(self): self.flag = False
+    def _flip(self): self.flag = not self.flag
+    def _tail(self, out):
+        if self.flag:
+            out.append('on')
+        else:
+            out.append('off')
+    def f(self, start):
+        self.flag = start
+        out = []
+        if self.flag:
+            out.append('A')
+            self._flip()
+            self._tail(out)
+        else:
+            out.append('B')
+            self._tail(out)
+            self._flip()
+            self._tail(out)
+        return out
+    def g(self, start):
+        self.flag = start
+        kind = 'x' if self.flag else 'y'
+        yield kind
+        self._tail2 = []
+        self._tail(self._tail2)
+        yield self._tail2
+def t(start): return N().f(start)
+def u(start):
+    n = N()
+    it = n.g(start)
+    a = next(it)
+    n._flip()
+    return a, next(it)
+''', ['t(True)', 't(False)', 'u(True)', 'u(False)'], expect_inlined=True)
+
 # must NOT be inlined: the loop has its own break (for-else would change meaning)
 case('''
 class N(object):
